@@ -15,7 +15,7 @@ import (
 func init() {
 	fw.Register(&fw.Check{
 		ID: "C04", Level: "model_checking",
-		Rule: "abstract API models rendered to text and compared with a reference catalog computed from the model (never from the text): (a) one focus HTTP method = request form {none, @type, [@type], inline schema, regex, any, empty, Headers+Body, Body only} x response list of length 0..2 over 9 response forms x query {none; example absent / present x format absent / htmlFormEncoded / noFormat} x annotation x description x placement {path-bearing at top level, first / second method of an implicit URL block, of a parenthesised URL block}, between filler declarations; (b) JSON-RPC method = annotation x description x params x result x placement; (c) declarations: every subset of INFO children, SERVER with/without annotation, TYPE of every notation and body of the body alphabet with/without annotation, ENUM with notes, in three positions among fillers; (e) macro-factored renderings: every sub-tree of every pool block written once as a macro body and pasted where it stood, and every child sub-tree of a URL block pasted into the block and into its twin on another path: accepted, byte-identical catalog; (d, thorough) every focus method also written with CRLF line ends, tab indentation and trailing comments; oracle: every field the model declares equals the catalog's, collections hold exactly the expected keys in source order, arrays have exactly the expected length, undeclared optional fields are absent; non-trivial = accepted model; distinct = distinct texts ; E-REFCAT: a reference compiler (lexemes of the real scanner -> forest by the reference resolver of C06 -> every PASTE replaced by the token stream of its macro and resolved again -> what the sentences say the catalog holds) run over every single-file fixture of the repository, every closed selection of 1..2 (thorough 3) pool blocks and every document the generators of C13 and C19 build: interaction ids in source order, names of servers / user types / enums in source order, info.title / info.version / base URLs read back exactly, annotation of every interaction and named entry ; the focus method in every HTTP method kind (POST in full, the others against methods departing from the default in at most one respect); one more rendering: an empty line between Description and its bare text",
+		Rule: "abstract API models rendered to text and compared with a reference catalog computed from the model (never from the text): (a) one focus HTTP method = request form {none, @type, [@type], inline schema, regex, any, empty, Headers+Body, Body only} x response list of length 0..2 over 9 response forms x query {none; example absent / present x format absent / htmlFormEncoded / noFormat} x annotation x description x placement {path-bearing at top level, first / second method of an implicit URL block, of a parenthesised URL block}, between filler declarations; (b) JSON-RPC method = annotation x description x params x result x placement; (c) declarations: every subset of INFO children, SERVER with/without annotation, TYPE of every notation and body of the body alphabet with/without annotation, ENUM with notes, in three positions among fillers; (e) macro-factored renderings: every sub-tree of every pool block written once as a macro body and pasted where it stood, and every child sub-tree of a URL block pasted into the block and into its twin on another path: accepted, byte-identical catalog; (d, thorough) every focus method also written with CRLF line ends, tab indentation and trailing comments; oracle: every field the model declares equals the catalog's, collections hold exactly the expected keys in source order, arrays have exactly the expected length, undeclared optional fields are absent; non-trivial = accepted model; distinct = distinct texts ; E-REFCAT: a reference compiler (lexemes of the real scanner -> forest by the reference resolver of C06 -> every PASTE replaced by the token stream of its macro and resolved again -> what the sentences say the catalog holds) run over every single-file fixture of the repository, every closed selection of 1..2 (thorough 3) pool blocks and every document the generators of C13 and C19 build: interaction ids in source order, names of servers / user types / enums in source order, info.title / info.version / base URLs read back exactly, annotation of every interaction and named entry ; the focus method in every HTTP method kind (POST in full, the others against methods departing from the default in at most one respect); one more rendering: an empty line between Description and its bare text ; JSON-RPC: the Protocol directive first, between the methods and last",
 		Assume: []string{"schema content is compared by a digest (token type, type, keys and values of children, used user types) computed from the model for a body alphabet of 10 schemas; the schema library is trusted for the rest of the AST",
 			"unknown additional scalar fields inside an entry are ignored (projection), membership and order of every collection are exact"},
 		Run: runC04, QuickCap: 8 * time.Minute, ThoroughCap: 40 * time.Minute,
